@@ -35,18 +35,38 @@ let run (type a) (k : a c01_ops) (parse : string -> a) (show : a -> string)
   let kern (st : [ `Diag of a list | `Dense of a list list ]) (o : string) (alpha : a) (x : a list) (y : a list) : a list =
     match st with
     | `Diag d when List.length d >= 2 ->
-      (match o with
+      let lit = (match o with
        | "mv" -> c01_dg_mv k d x y | "mtv" -> c01_dg_mtv k d x y | "umv" -> c01_dg_umv k d x y | "umtv" -> c01_dg_umtv k d x y
        | "umhv" -> c01_dg_umhv k d x y | "mmv" -> c01_dg_mmv k d x y | "mmtv" -> c01_dg_mmtv k d x y | "mmhv" -> c01_dg_mmhv k d x y
        | "usmv" -> c01_dg_usmv k alpha d x y | "usmtv" -> c01_dg_usmtv k alpha d x y | "usmhv" -> c01_dg_usmhv k alpha d x y
-       | _ -> failwith "kernel")
+       | _ -> failwith "kernel") in
+      let par = (match o with
+       | "mv" -> c01_param_diag_mv | "mtv" -> c01_param_diag_mtv | "umv" -> c01_param_diag_umv | "umtv" -> c01_param_diag_umtv
+       | "umhv" -> c01_param_diag_umhv | "mmv" -> c01_param_diag_mmv | "mmtv" -> c01_param_diag_mmtv | "mmhv" -> c01_param_diag_mmhv
+       | "usmv" -> c01_param_diag_usmv | "usmtv" -> c01_param_diag_usmtv | _ -> c01_param_diag_usmhv) in
+      let src = c01_dg_kernel_gen k par alpha d x y in
+      if src <> lit then prerr_endline ("C01 driver: source-selected diagonal kernel differs from the literal model kernel: " ^ o);
+      src
     | _ ->
       let m = (match st with `Diag d -> [d] | `Dense m -> m) in      (* DiagonalMatrix<K,1> is a FieldMatrix<K,1,1> *)
-      (match o with
+      (* the kernel built from the tokens read from densematrix.hh (Params_gen), run as a transformer of the three objects;
+         it must return A and x unchanged (checked here) and, by theorem, equals the literal kernel below *)
+      let viaobjs par = let s = c01_kernel_objs k (c01_kdesc_of par) alpha { c01_oA = m; c01_ox = x; c01_oy = y } in
+        if s.c01_oA = m && s.c01_ox = x then s.c01_oy else failwith "model frame broken" in
+      let lit = (match o with
        | "mv" -> c01_mv k m x y | "mtv" -> c01_mtv k m x y | "umv" -> c01_umv k m x y | "umtv" -> c01_umtv k m x y
        | "umhv" -> c01_umhv k m x y | "mmv" -> c01_mmv k m x y | "mmtv" -> c01_mmtv k m x y | "mmhv" -> c01_mmhv k m x y
        | "usmv" -> c01_usmv k alpha m x y | "usmtv" -> c01_usmtv k alpha m x y | "usmhv" -> c01_usmhv k alpha m x y
        | _ -> failwith "kernel") in
+      let src = (match o with
+       | "mv" -> viaobjs c01_param_dense_mv | "mtv" -> viaobjs c01_param_dense_mtv | "umv" -> viaobjs c01_param_dense_umv
+       | "umtv" -> viaobjs c01_param_dense_umtv | "umhv" -> viaobjs c01_param_dense_umhv | "mmv" -> viaobjs c01_param_dense_mmv
+       | "mmtv" -> viaobjs c01_param_dense_mmtv | "mmhv" -> viaobjs c01_param_dense_mmhv | "usmv" -> viaobjs c01_param_dense_usmv
+       | "usmtv" -> viaobjs c01_param_dense_usmtv | _ -> viaobjs c01_param_dense_usmhv) in
+      (* the model observation follows the source tokens; a difference to the literal kernel means the tokens changed
+         (then C01_source_selects_model no longer checks and the oracle judges the implementation against the definition) *)
+      if src <> lit then prerr_endline ("C01 driver: source-selected kernel differs from the literal model kernel: " ^ o);
+      src in
   let spec_kern (o : string) (alpha : a) (cc : nat) (m : a list list) (x : a list) (y : a list) : a list =
     match o with
     | "mv" -> c01s_assign k C01_N cc m x | "mtv" -> c01s_assign k C01_T cc m x
@@ -83,9 +103,17 @@ let run (type a) (k : a c01_ops) (parse : string -> a) (show : a -> string)
     let s = take1 () in let x = take r in let y = take r in
     let inplace res sp = (obs (sv res) (sv res) (sv y), obs (sv sp) (sv sp) (sv y)) in
     let fresh res sp = (obs res (sv x) (sv y), obs sp (sv x) (sv y)) in
+    (* x op= y as a transformer of both objects: y must come back unchanged, x as the functional loop computes it *)
+    let viaobjs f lit = let o = c01_vec_inplace_objs k f { c01_vx = x; c01_vy = y } in
+      if o.c01_vy = y && o.c01_vx = lit then o.c01_vx else failwith "model frame broken (vector)" in
     (match op with
-     | "vadd" -> inplace (c01_vadd k x y) (c01s_vadd k x y)
-     | "vsub" -> inplace (c01_vsub k x y) (c01s_vsub k x y)
+     | "vadd" -> inplace (viaobjs k.c01_add (c01_vadd k x y)) (c01s_vadd k x y)
+     | "vsub" -> inplace (viaobjs k.c01_sub (c01_vsub k x y)) (c01s_vsub k x y)
+     | "vplus" when rep = "SW" ->
+       (* literal model of the view: the result is another view of the same scalar (finding F-C01-4): operand altered *)
+       let (z, xa) = c01_view_binop k.c01_add (List.hd x) (List.hd y) in (obs (show z) (show xa) (sv y), obs (sv (c01s_vadd k x y)) (sv x) (sv y))
+     | "vminus" when rep = "SW" ->
+       let (z, xa) = c01_view_binop k.c01_sub (List.hd x) (List.hd y) in (obs (show z) (show xa) (sv y), obs (sv (c01s_vsub k x y)) (sv x) (sv y))
      | "vplus" -> fresh (sv (c01_vplus k x y)) (sv (c01s_vadd k x y))
      | "vminus" -> fresh (sv (c01_vminus k x y)) (sv (c01s_vsub k x y))
      | "vneg" ->
@@ -268,15 +296,15 @@ let run (type a) (k : a c01_ops) (parse : string -> a) (show : a -> string)
      | "xfm11timeseq" -> inpl (c01_fm11_scalar_r k k.c01_mul (m11 a) s) (k.c01_mul a s) (show s)
      | "xfm11diveq" -> let q = get (k.c01_div a s) in inpl (m11 q) q (show s)
      | "xfm11mpluseq" -> inpl (c01_madd k (m11 a) (m11 b)) (k.c01_add a b) (show b)
-     | _ -> (obs (show a) (show (k.c01_mul a s)) (show a), obs (show a) (show (k.c01_mul a s)) (show a)))
+     | _ -> let cv = c01_fm11_conv k (m11 a) in (obs (show cv) (show (k.c01_mul cv s)) (show a), obs (show a) (show (k.c01_mul a s)) (show a)))
   | "xfv1adds" | "xfv1sadd" | "xfv1subs" | "xfv1ssub" | "xfv1muls" | "xfv1smul" | "xfv1divs" | "xfv1sdiv" | "xfv1conv" | "xfv1eq" | "xfv1cmp" ->
     let s = take1 () in let a = take1 () in let b = take1 () in
     let fresh v = (obs (show v) (show a) (show s), obs (show v) (show a) (show s)) in
     let bits l = String.concat "" (List.map b01 l) in
     (match op with
-     | "xfv1adds" -> fresh (k.c01_add a s) | "xfv1sadd" -> fresh (k.c01_add s a)
-     | "xfv1subs" -> fresh (k.c01_sub a s) | "xfv1ssub" -> fresh (k.c01_sub s a)
-     | "xfv1muls" -> fresh (k.c01_mul a s) | "xfv1smul" -> fresh (k.c01_mul s a)
+     | "xfv1adds" -> fresh (List.hd (c01_fv1_op k k.c01_add [a] s)) | "xfv1sadd" -> fresh (List.hd (c01_fv1_op_l k k.c01_add s [a]))
+     | "xfv1subs" -> fresh (List.hd (c01_fv1_op k k.c01_sub [a] s)) | "xfv1ssub" -> fresh (List.hd (c01_fv1_op_l k k.c01_sub s [a]))
+     | "xfv1muls" -> fresh (List.hd (c01_fv1_op k k.c01_mul [a] s)) | "xfv1smul" -> fresh (List.hd (c01_fv1_op_l k k.c01_mul s [a]))
      | "xfv1divs" -> fresh (get (k.c01_div a s)) | "xfv1sdiv" -> fresh (get (k.c01_div s a))
      | "xfv1conv" -> (obs (show s) (show a) (show s), obs (show s) (show a) (show s))
      | "xfv1eq" ->
@@ -333,7 +361,8 @@ let run (type a) (k : a c01_ops) (parse : string -> a) (show : a -> string)
     if rep = "DG" && r >= 2 then begin
       let d = take r in let e = take r in
       let n = string_of_int r in
-      let info = String.concat "," [n; n; n; n; n; n; show (List.nth d (r - 1)); string_of_int (r - 1); sv d] in
+      let ex = List.length (List.filter (fun b -> b) (List.concat (List.init r (fun i -> List.init r (fun j -> c01_dg_exists (nat_of_int i) (nat_of_int j)))))) in
+      let info = String.concat "," [n; n; n; n; n; string_of_int ex; show (List.nth d (r - 1)); string_of_int (r - 1); sv d] in
       (obs (sm (c01_dg_to_dense k d)) info (sv (c01_vassign k d e)), obs (sm (c01s_diag k d)) info (sv e))
     end else begin
       let (rr, cc) = if rep = "DG" then (1, 1) else (r, c) in
@@ -355,10 +384,23 @@ let run (type a) (k : a c01_ops) (parse : string -> a) (show : a -> string)
     let a2 = c01_mscale k a two in
     (obs (sv (c01_tw_mv (c01_mtv k a) x y)) (sv (c01_tw_mv (c01_mtv k a2) x y)) (sm a),
      obs (sv (c01s_assign k C01_T nc a x)) (sv (c01s_assign k C01_T nc (c01s_mscale k two a) x)) (sm a))
+  | "xselfleft" | "xselfright" ->
+    let a = takem r r in
+    (* model: the code after fix C01-5 (aliased call goes through a copy of the factor) *)
+    let res = if op = "xselfleft" then c01_leftmultiply_self k a else (if rep = "FM" && r = 1 then c01_fm11_rightmultiply k a a else c01_rightmultiply_self k a) in
+    let sp = c01s_mat_mul k nr a a in
+    (obs (sm res) (sm res) (sm a), obs (sm sp) (sm sp) (sm a))
   | "xresize" ->
     let s = take1 () in let x = take r in
     let rs fillv = List.init c (fun i -> if i < r then List.nth x i else fillv) in
-    let o = obs (sv (rs s)) (sv (rs k.c01_O)) (sv (x @ [s])) in (o, o)
+    (obs (sv (c01_resize x nc s)) (sv (c01_resize x nc k.c01_O)) (sv (x @ [s])), obs (sv (rs s)) (sv (rs k.c01_O)) (sv (x @ [s])))
+  | "xvself" ->
+    let s = take1 () in let x = take r in
+    let axpy a b = k.c01_add a (k.c01_mul s b) in
+    let b3 m d e q = sv m ^ "|" ^ show d ^ "|" ^ show e ^ "|" ^ b01 q in
+    (obs (sv (c01_vec_inplace_self k k.c01_add x)) (sv (c01_vec_inplace_self k k.c01_sub x))
+       (b3 (c01_vec_inplace_self k axpy x) (c01_vdotT k x x) (c01_vdot k x x) (c01_veq k x x)),
+     obs (sv (c01s_vadd k x x)) (sv (c01s_vsub k x x)) (b3 (c01s_vadd k x (c01s_vscale k s x)) (c01s_dot k x x) (c01s_hdot k x x) true))
   | _ -> ("UNKNOWN-OP", "UNKNOWN-OP")
 
 let parse_z s = z_of_int (int_of_string s)
@@ -386,7 +428,7 @@ let () =
              let parse s = Z.modulo (parse_z s) (z_of_int pp) in
              run ops parse show_z None c01_Z_abs c01_Z_abs2 (fun _ _ -> []) op rep rep2 r c p toks
            else ("UNKNOWN-FIELD", "UNKNOWN-FIELD")
-         with Undef -> ("UNDEF", "UNDEF")) in
+         with Undef -> ("UNDEF", "UNDEF") | Failure msg -> ("MODEL-FAILURE " ^ msg, "-")) in
        print_string m; print_string " | "; print_endline s
      | _ -> print_endline "BAD-CASE | BAD-CASE")
   done with End_of_file -> ())
